@@ -47,6 +47,8 @@ type Frame struct {
 	freeVals      map[*ssa.FreeVar]Val
 	headerSt      map[*ssa.BasicBlock]*State
 	headerDec     map[*ssa.BasicBlock]Term
+	preSt         map[*ssa.BasicBlock]*State
+	prePhi        map[*ssa.BasicBlock]map[*ssa.Phi]Val
 	debugVals     map[types.Object][]ssa.Value
 	inlineArgs    []Val
 	houdini       map[int][]*Clause // extra candidate invariants per loop ordinal (already proved)
@@ -409,6 +411,10 @@ func (f *Frame) instr(in ssa.Instruction, st *State) {
 		case *types.Slice:
 			g.oblige(st, "bounds", t.Pos(), f.text(t.Pos()), tAnd(tCmp("<=", intLit(0), idx), tCmp("<", idx, x.Comps[1])))
 			a := tAdd(x.Comps[0], tMul(idx, intLit(cellSize(u.Elem()))))
+			if g.topC != nil && g.topC.IndexFn {
+				// same address, written through the index function the quantified specs use (E-matching aid)
+				a = g.idxTerm(x.Comps[0], idx, cellSize(u.Elem()))
+			}
 			f.set(t, Val{Comps: []Term{a}})
 		case *types.Pointer:
 			arr := under(u.Elem()).(*types.Array)
@@ -1023,6 +1029,8 @@ type loopMods struct {
 	fresh    map[string]string // keys touched only by stores into memory allocated inside the loop
 	alloc    bool
 	tok      bool
+	dirty    map[string]bool // keys that a write into memory NOT allocated by this function call may hit
+	curDirty bool            // the store being scanned is such a write
 }
 
 func (lm *loopMods) addType(t types.Type, fresh bool) {
@@ -1038,9 +1046,19 @@ func (lm *loopMods) addType(t types.Type, fresh bool) {
 			} else {
 				lm.keys[k] = arrSort(c.Sort)
 				delete(lm.fresh, k)
+				if lm.curDirty {
+					lm.markDirty(k)
+				}
 			}
 		}
 	}
+}
+
+func (lm *loopMods) markDirty(k string) {
+	if lm.dirty == nil {
+		lm.dirty = map[string]bool{}
+	}
+	lm.dirty[k] = true
 }
 
 func (lm *loopMods) addField(structT types.Type, i int, ft types.Type, fresh bool) {
@@ -1053,6 +1071,9 @@ func (lm *loopMods) addField(structT types.Type, i int, ft types.Type, fresh boo
 		} else {
 			lm.keys[k] = arrSort(c.Sort)
 			delete(lm.fresh, k)
+			if lm.curDirty {
+				lm.markDirty(k)
+			}
 		}
 	}
 }
@@ -1072,9 +1093,11 @@ func (f *Frame) scanMods(blocks []*ssa.BasicBlock, lm *loopMods, depth int) {
 			switch t := in.(type) {
 			case *ssa.Store:
 				lm.tok = true
+				lm.curDirty = false
 				if !staticallyFresh(t.Addr, map[ssa.Value]bool{}) {
 					if a, ok := t.Addr.(*ssa.Alloc); !ok || !isVariableCell(a) {
 						lm.nonFresh = true
+						lm.curDirty = true
 						if hasPtrComps(t.Val.Type()) {
 							lm.escape = true
 						}
@@ -1089,6 +1112,7 @@ func (f *Frame) scanMods(blocks []*ssa.BasicBlock, lm *loopMods, depth int) {
 					elemT := t.Addr.Type().Underlying().(*types.Pointer).Elem()
 					lm.addType(elemT, inLoopAlloc[t.Addr])
 				}
+				lm.curDirty = false
 			case *ssa.Alloc:
 				lm.alloc = true
 				lm.addType(t.Type().(*types.Pointer).Elem(), true)
@@ -1114,7 +1138,9 @@ func (f *Frame) scanMods(blocks []*ssa.BasicBlock, lm *loopMods, depth int) {
 				if !staticallyFresh(t.Map, map[ssa.Value]bool{}) {
 					lm.nonFresh, lm.escape = true, true
 				}
+				lm.curDirty = true
 				lm.addMap(t.Map.Type())
+				lm.curDirty = false
 			case *ssa.Go, *ssa.Send, *ssa.Select, *ssa.MakeChan:
 				lm.all = true
 			case *ssa.UnOp:
@@ -1134,6 +1160,12 @@ func (f *Frame) scanMods(blocks []*ssa.BasicBlock, lm *loopMods, depth int) {
 func (f *Frame) loopHeader(li *LoopInfo, st *State, phiEntry map[*ssa.Phi]Val) {
 	g := f.g
 	// 1. invariants hold on entry
+	if f.preSt == nil {
+		f.preSt = map[*ssa.BasicBlock]*State{}
+		f.prePhi = map[*ssa.BasicBlock]map[*ssa.Phi]Val{}
+	}
+	f.preSt[li.Header] = st.clone()
+	f.prePhi[li.Header] = phiEntry
 	f.checkInvariants(li, st, func(p *ssa.Phi) Val { return phiEntry[p] }, "inv-init")
 	// 2. havoc what the loop may change
 	lm := &loopMods{keys: map[string]string{}, fresh: map[string]string{}}
@@ -1153,6 +1185,16 @@ func (f *Frame) loopHeader(li *LoopInfo, st *State, phiEntry map[*ssa.Phi]Val) {
 		}
 		sort.Strings(ks)
 		for _, k := range ks {
+			if !lm.dirty[k] && strings.HasPrefix(lm.keys[k], "(Array Int ") && !strings.HasPrefix(k, "M|") {
+				// every write of the loop to this component goes to memory allocated by this call:
+				// what existed when the function was entered keeps its content
+				old := g.heapGet(st, k, lm.keys[k])
+				n := g.sym("He_" + k)
+				g.declare(n, lm.keys[k])
+				g.emit(fmt.Sprintf("(assert (forall ((a Int)) (! (=> (< a %s) (= (select %s a) (select %s a))) :pattern ((select %s a)))))", g.entryW.S, n, old.S, n))
+				st.heap[k] = Term{S: n, Sort: lm.keys[k]}
+				continue
+			}
 			n := g.sym("Hl_" + k)
 			g.declare(n, lm.keys[k])
 			st.heap[k] = Term{S: n, Sort: lm.keys[k]}
@@ -1433,6 +1475,7 @@ func (f *Frame) checkInvariants(li *LoopInfo, st *State, phiVal func(p *ssa.Phi)
 	g := f.g
 	for _, c := range f.invariants(li) {
 		ev := f.loopEval(li, st, phiVal)
+		ev.pre = f.preEval(li)
 		t, err := ev.evalBool(c.Expr)
 		if err != nil {
 			g.specError(f.contract, c, err)
@@ -1442,10 +1485,21 @@ func (f *Frame) checkInvariants(li *LoopInfo, st *State, phiVal func(p *ssa.Phi)
 	}
 }
 
+// preEval: evaluation context of the moment the loop was entered (for pre(e) in loop annotations).
+func (f *Frame) preEval(li *LoopInfo) *Eval {
+	ps := f.preSt[li.Header]
+	if ps == nil {
+		return nil
+	}
+	pe := f.prePhi[li.Header]
+	return f.loopEval(li, ps, func(p *ssa.Phi) Val { return pe[p] })
+}
+
 func (f *Frame) assumeInvariants(li *LoopInfo, st *State) {
 	g := f.g
 	for _, c := range f.invariants(li) {
 		ev := f.loopEval(li, st, nil)
+		ev.pre = f.preEval(li)
 		t, err := ev.evalBool(c.Expr)
 		if err != nil {
 			g.specError(f.contract, c, err)
@@ -1465,6 +1519,7 @@ func (f *Frame) backEdge(li *LoopInfo, predIdx int, st *State) {
 			if hs := f.headerSt[li.Header]; hs != nil {
 				hev := f.loopEval(li, hs, nil)
 				ev.header = hev
+				ev.pre = f.preEval(li)
 			}
 			t, err := ev.evalBool(c.Expr)
 			if err != nil {
